@@ -5,11 +5,11 @@ CONSTANTS
     Mdls = {"m1", "m2"}
     Names = {"n1", "n2"}
     PropVals = {1, 2}
-    NewComps = {"rec1", "dflt", "dfltL"}
-    WithComps = {"rec2", "dflt", "dfltL"}
-    CwComps = {"rec3", "dflt", "dfltL", "ok", "err", "errM"}
+    NewComps = {"rec1", "dflt", "dfltl", "dfltp", "dfltL"}
+    WithComps = {"rec2", "dflt", "dfltl", "dfltL"}
+    CwComps = {"rec3", "dflt", "dfltp", "dfltL", "ok", "okD", "err", "errD", "errM", "errMD"}
     Scripts <- MC_ScriptsThorough
-    Forms = {"none", "plain", "setup", "result", "resultM", "guard", "newspan"}
+    Forms = {"none", "plain", "setup", "result", "result_o", "result_e", "resultM", "resultM_m", "guard", "newspan"}
     Frames = {"in", "out"}
     MaxLen = 0
     F2Bug = FALSE
